@@ -59,10 +59,10 @@ class ClassOfV:
 
 
 class NameOfV:
-    """x.__class__.__name__ of a union-typed value"""
+    """x.__class__.__name__ of a union-typed value (optionally lower-cased)"""
 
-    def __init__(self, sym):
-        self.sym = sym
+    def __init__(self, sym, lower=False):
+        self.sym, self.lower = sym, lower
 
 
 class VirtualM:
@@ -1231,6 +1231,11 @@ class Exec:
         return v_eq(l, r)
 
     def contains(self, coll, x):
+        if isinstance(x, NameOfV):
+            # class name of a union value in a collection of strings: case split over the constructors
+            t = x.sym.ty
+            return v_or(*[v_and(mkbool(self.world.recognizer(m)(x.sym.e)), v_contains(coll, m.lower() if x.lower else m))
+                          for m in t.members()])
         if isinstance(coll, PyDict):
             return v_or(*[v_eq(x, k) for k, _ in coll.items]) if coll.items else False
         return v_contains(coll, x)
@@ -1377,7 +1382,10 @@ class Exec:
             else:
                 raise PyvcUnsupported(f"attribute {attr} on the class of a union value")
         elif isinstance(r, NameOfV):
-            yield Builtin("opaque." + attr), st
+            if attr == "lower":
+                yield ValMethod(r, "lower"), st
+            else:
+                yield Builtin("opaque." + attr), st
         elif isinstance(r, FuncV) and attr == "__name__":
             yield getattr(r.node, "name", "<lambda>"), st
         else:
